@@ -148,6 +148,47 @@ def run(chk):
         jrows = [[str(x), str(y)] for x, y in zip(dfn["c1"], dfn["c2"])]
         expect({"op": "pc_table", "rows": jrows}, lambda d=dfn: float(st.pc(d)), "pc[table-numeric]", {"rows": jrows}, True)
         expect({"op": "pc_joint", "rows": jrows, "sep": "_"}, lambda d=dfn: float(st.pc_joint(d, ["c1", "c2"])), "pc_joint[numeric]", {"rows": jrows}, True)
+    # numeric cells that need every digit: close floats, large integers beside a float column, an integer column
+    # that pandas upcasts to float because of a missing value
+    for _ in range(12 if not thorough else 120):
+        n = rng.randint(3, 8)
+        kind = rng.choice(["close-floats", "big-ints", "upcast"])
+        if kind == "close-floats":
+            a = [rng.choice([0.12345671, 0.12345674, 0.1234567, 1234567.25, 1234567.75]) for _ in range(n)]
+            b = [rng.choice(["x", "y"]) for _ in range(n)]
+        elif kind == "big-ints":
+            a = [rng.choice([1000001, 1000002, 1000000, 123456789, 123456788]) for _ in range(n)]
+            b = [rng.choice([0.5, 1.5]) for _ in range(n)]
+        else:
+            a = [rng.choice([1000001, 1000002, 7, None]) for _ in range(n - 1)] + [None]
+            b = [rng.choice(["x", "y"]) for _ in range(n)]
+        dfn = pd.DataFrame({"c1": a, "c2": b})
+        jrows = [[cell_json(x), cell_json(y)] for x, y in zip(dfn["c1"].tolist(), dfn["c2"].tolist())]
+        expect({"op": "pc_table", "rows": jrows}, lambda d=dfn: float(st.pc(d)), f"pc[table-{kind}]", {"rows": jrows}, True)
+        if kind != "upcast":
+            expect({"op": "pc_joint", "rows": jrows, "sep": "_"}, lambda d=dfn: float(st.pc_joint(d, ["c1", "c2"])), f"pc_joint[{kind}]", {"rows": jrows}, True)
+        # the single column alone, as a flat sample of floats / ints
+        if kind != "upcast":
+            expect({"op": "pc1", "xs": [repr(v) for v in a]}, lambda a=a: float(st.pc(a)), f"pc[{kind}]", {"sample": [repr(v) for v in a]}, True)
+    # a writable, unsorted ndarray is used again after the call, position-aligned with other data: it must not have been reordered
+    for _ in range(10 if not thorough else 100):
+        n = rng.randint(4, 9)
+        al = [rng.choice(["CD", "CB", "CA", "CC"]) for _ in range(n)]
+        be = [rng.choice(["CX", "CY"]) for _ in range(n)]
+        arr = np.array(al)
+        keep = arr.copy()
+        first = core.call_real(lambda: float(st.pc(arr)))
+        chk.case(nontrivial_key=("reuse", tuple(al), tuple(be)))
+        chk.count("op:pc-reuse")
+        if not np.array_equal(arr, keep):
+            chk.violation("C02|pc|reorders-input", "pc changed the ndarray it was given (a later position-aligned use of the same array is wrong)",
+                          {"sample": al, "after": arr.tolist()})
+        jrows = [[a_, b_] for a_, b_ in zip(al, be)]
+        expect({"op": "pc1", "xs": al}, lambda f=first: f[1] if f[0] == "ok" else (_ for _ in ()).throw(RuntimeError(f[1])), "pc[ndarray-first-use]", {"sample": al}, True)
+        expect({"op": "pc_table", "rows": jrows}, lambda arr=arr, be=be: float(st.pc((arr, np.array(be)))), "pc[tuple-after-reuse]", {"rows": jrows}, True)
+        m1 = [i % 2 == 0 for i in range(n)]
+        expect({"op": "pc2", "as": [x for x, m in zip(al, m1) if m], "bs": [x for x, m in zip(al, m1) if not m]},
+               lambda arr=arr, m1=m1: float(st.pc(arr[np.array(m1)], arr[~np.array(m1)])), "pc2[masks-after-reuse]", {"sample": al}, True)
     # legacy (alpha, beta) tuple input becomes a two-column table
     for _ in range(10):
         n = rng.randint(2, 8)
